@@ -31,6 +31,14 @@ What the digest does NOT determine (and the oracle therefore does not check):
 * `Inv.stamp` (`lastVerified ≤ epoch`): the digest has only the bit `lastVerified = epoch`; the two
   numbers would make it checkable (it is not interesting);
 * the static-ness conjunct of `Inv.pjKinds` is a property of the program, not of the state.
+* pending flags: the invariant constrains them only through `pjBroken` / `pjCause` / `Solid`; "a pending
+  flag is set when a firewall's value changed" is a property of transitions (`Frame.pend`), not of states —
+  a lost flag is seen by the oracle only when a projection above still holds the old observation.
+Two further checks are EXPECTED BUT NOT PROVED (`extraClauses`, driver argument `extra`, reported as
+`FAIL-extra`): `x-tfcExact` (the firewall set of a verified node is exactly the union of its recorded
+callees' contributions; the invariant has only `⊇`) and `x-verClean` (a verified node has no dirty recorded
+edge except to a firewall / projection verified in this epoch; dirty edges are conservative, the invariant
+allows spurious ones).
 Every other conjunct of `Inv` is decided exactly by the digest (`!` and `^` are exactly the atoms
 `nd.value = o` and `nd.tfc = n.seen d` of `Solid` / `NGood` / `clean` / `pjSeen` / `pjBroken`).
 -/
